@@ -62,7 +62,7 @@ CONFIG = dict(
     expect_tokens=["established", "(6 7)", "parse-reject", "(5 3)", "(5 4)", "(5 5)", "hold-expired", "close-connection",
                    "stop-active-connect", "(2 2)", "remote-notif", "admin-shutdown", "io-error",
                    "wire-obs", "(notif 6 7)", "(notif 2 6)", "(notif 2 3)", "(notif 2 2)", "(notif 5 4)", "(notif 4 0)",
-                   "(notif 6 2)", "refused", "no-conn"],
+                   "(notif 6 2)", "(notif 6 3)", "refused", "no-conn"],
     trusted_base=["model Rbgp/Fsm/Model.lean of daemon/src/fsm.rs + OPEN acceptance of packet/src/bgp.rs parse_message; "
                   "Rbgp/Fsm/Wire.lean: which frames a step's outputs put on the wire",
                   "harness/daemon/fsm.rs (FSM stream): a raw OPEN is built by the harness, parsed by the real PeerCodec; on a "
@@ -226,8 +226,9 @@ def gen_wire(r):
         else:
             k = r.weighted([("rand", 6), ("keepalive", 2), ("connect", 2)])
         if k == "rand":
-            k = r.pick(["connect", "open", "badopen", "keepalive", "update", "update-looped", "update-attrs", "eor",
-                        "notification", "route-refresh", "close", "admin-shutdown", "hold-timer", "ka-timer"])
+            k = r.pick(["connect", "open", "badopen", "keepalive", "update", "update-looped", "update-looped", "update-attrs",
+                        "update-attrs", "eor", "notification", "route-refresh", "close", "admin-shutdown", "hold-timer",
+                        "ka-timer", "reset", "bfd-down"])
         if k == "connect":
             t = "connect"; prog[role] = max(prog[role], 1)
         elif k == "open":
@@ -248,6 +249,8 @@ def gen_wire(r):
             t = k
             if k in ("close", "admin-shutdown", "hold-timer"):
                 prog[role] = 0
+            if k in ("reset", "bfd-down"):
+                prog = {"A": 0, "P": 0}
         evs.append("(%s %s)" % (role, t))
     return "(wire (cfg %d 65001 %d %d) (evs %s))" % (local_rid, local_hold, expected, " ".join(evs))
 
